@@ -164,7 +164,10 @@ AppendValues == /\ AppendEnabled(St) /\ Set(AppendOp(St))
                 /\ hist' = [hist EXCEPT ![Cur].exit = "appended"]
 
 Decorate(d) == /\ DecorateEnabled(St) /\ Set(DecorateOp(St, d))
-               /\ hist' = [hist EXCEPT ![Cur].deco = d]
+               /\ hist' = [hist EXCEPT ![Cur] = [@ EXCEPT !.deco = d,
+                                                         !.exit = IF d = "ok" THEN @
+                                                                  ELSE IF d = "value_error" THEN "raised_value"
+                                                                  ELSE "raised_other"]]
 
 Finish == /\ FinishEnabled(St, Horizon) /\ Set(FinishOp(St)) /\ UNCHANGED hist
 
